@@ -178,7 +178,8 @@ CLAIMED["C08"] = dict(
     text="Sixteen theorems kernel-checked (C08_user_dic_roundtrip, C08_register_storable, C08_restart_restores, C08_idempotent, "
          "C08_inv_at_start, C08_inv_apply, C08_inv_step, C08_inv_history, C08_same_answers_partial, quiet_all, C08_full, …); the real "
          "server is taken through mixed registration/confirmation histories (incl. counters that only the ancillary dictionary has), "
-         "saved and restarted twice, and every probe answer, Verif.Dump and the bytes of user.dic are compared.",
+         "saved and restarted twice, and every probe answer, Verif.Dump and the bytes of user.dic are compared; directed histories: "
+         "a written form registered again with another part of speech, and registrations queued together while the updater is delayed.",
     note="frequency.bin's postcard encoding is not modelled (compared through the real files/dumps). Until fix c5e9959 a learned compound "
          "was stored in the user dictionary twice; the thorough tier found a history after which a restart flipped two equal-score "
          "candidates (genuine defect D5b, repaired), and the theorem was partial; it is full now. " + SRV_NOTE, design="5/C08")
